@@ -79,8 +79,14 @@ impl TryFrom<WireNetworkChangeEvent> for NetworkChangeEvent {
         Ok(Self {
             account_id: account_id.into(),
             connection_id: value.connection_id,
-            root: value.root.unwrap().try_into()?,
-            outcome: value.outcome.unwrap().try_into()?,
+            root: value
+                .root
+                .ok_or_else(crate::bindings::missing_field)?
+                .try_into()?,
+            outcome: value
+                .outcome
+                .ok_or_else(crate::bindings::missing_field)?
+                .try_into()?,
         })
     }
 }
